@@ -215,6 +215,9 @@ func genOptCases(r *rand.Rand, nsmall, nbig int) []Case {
 		cs = append(cs, Case{ID: id, Kind: "optstreams", Class: class, Fps: fps, Runs: runs})
 		id++
 	}
+	// one row: all that is left for the final flush
+	add("opt:single-row", optFps(r, 1), [][][3]int{{{0, 1, 0}}})
+	add("opt:single-row-after-empty-batches", optFps(r, 2), [][][3]int{{}, {{1, 1, 0}}, {}})
 	for i := 0; i < nsmall; i++ {
 		ns := 1 + r.Intn(4)
 		add("opt:small", optFps(r, ns), optRuns(r, ns, r.Intn(40), 12, 4, true))
